@@ -1098,12 +1098,31 @@ func (k c24Case) runCase(c *core.Ctx) {
 			r2 := cf2.run(k2, tlspair.Options{})
 			first := ss1
 			cs2, ss2, _ := k2.checkConn(c, r2, "2", expect, &first)
+			pp2 := false
 			if cs2.OK && ss2.OK {
 				if err := r2.PingPong([]byte("ping-2"), []byte("pong-2")); err != nil {
-					c.Violation("application_data_after_handshake_failed:"+k.Peer, err.Error(), k.ID+"/2", c24Obs{Case: k, Conn: "2", Client: cs2.String(), Server: ss2.String()})
+					if !reportPanics(c, r2, k.ID+"/2", k2) {
+						c.Violation("application_data_after_handshake_failed:"+k.Peer, err.Error(), k.ID+"/2", c24Obs{Case: k, Conn: "2", Client: cs2.String(), Server: ss2.String()})
+					}
+				} else {
+					pp2 = true
 				}
 			}
 			r2.Close()
+			// third connection: the second one ran under changed configurations and did a full handshake, so the
+			// ticket it issued describes the second connection; under the same (changed) configurations it must
+			// resume with the second connection's parameters (asserted for zcrypto<->zcrypto, agreement otherwise)
+			if pp2 && len(k.Conn2) > 0 && !ss2.Resumed && !cs2.Resumed {
+				r3 := cf2.run(k2, tlspair.Options{})
+				expect3 := -1
+				if k.Peer == "zz" {
+					expect3 = 1
+				}
+				second := ss2
+				k2.checkConn(c, r3, "3", expect3, &second)
+				r3.Close()
+				c.Count("conn3_after_full_conn2", 1)
+			}
 		}
 	} else {
 		r1.Close()
